@@ -20,6 +20,7 @@ import (
 	"strings"
 	"sync"
 	"sync/atomic"
+	"syscall"
 	"time"
 
 	"google.golang.org/grpc"
@@ -265,4 +266,66 @@ func startUpstreams() (*upstreams, error) {
 	gs.RegisterService(&holdDesc, struct{}{})
 	go gs.Serve(gl)
 	return u, nil
+}
+
+// ---- a black-holed upstream: a listening socket with backlog 0 whose accept queue is full and is never
+// drained. Further SYNs are dropped silently, so a dial to it stays pending until its own timeout. ----
+
+var (
+	bhMu   sync.Mutex
+	bhAddr string
+	bhKeep []net.Conn
+)
+
+func blackhole() (string, error) {
+	bhMu.Lock()
+	defer bhMu.Unlock()
+	if bhAddr != "" {
+		return bhAddr, nil
+	}
+	var last error
+	for try := 0; try < 5; try++ {
+		a, err := freeAddr()
+		if err != nil {
+			return "", err
+		}
+		_, ps, _ := net.SplitHostPort(a)
+		var port int
+		fmt.Sscanf(ps, "%d", &port)
+		fd, err := syscall.Socket(syscall.AF_INET, syscall.SOCK_STREAM, 0)
+		if err != nil {
+			return "", err
+		}
+		if err := syscall.Bind(fd, &syscall.SockaddrInet4{Port: port, Addr: [4]byte{127, 0, 0, 1}}); err != nil {
+			syscall.Close(fd)
+			last = err
+			continue
+		}
+		if err := syscall.Listen(fd, 0); err != nil {
+			syscall.Close(fd)
+			last = err
+			continue
+		}
+		var fill []net.Conn
+		for i := 0; i < 16; i++ {
+			c, err := net.DialTimeout("tcp", a, 300*time.Millisecond)
+			if err != nil {
+				if ne, ok := err.(net.Error); ok && ne.Timeout() {
+					bhAddr, bhKeep = a, fill // the fd and the filling connections stay open for the life of the process
+					return bhAddr, nil
+				}
+				last = err
+				break
+			}
+			fill = append(fill, c)
+		}
+		for _, c := range fill {
+			c.Close()
+		}
+		syscall.Close(fd)
+		if last == nil {
+			last = fmt.Errorf("accept queue of %s never filled up", a)
+		}
+	}
+	return "", fmt.Errorf("cannot build a black-holed upstream on this host: %v", last)
 }
